@@ -25,7 +25,7 @@ func init() {
 		Assumptions: []string{"string == is exact comparison", "fmt.Sprintf with %s of a string inserts it verbatim"},
 		Tech:        "static analysis: guarded-by-condition on SSA, acceptance-condition enumeration for all implementations of the partition interface, constant-folded format strings",
 		NeedU1:      true,
-		Rules:       []func(*Ctx){ruleC06CheckedBeforeUse, ruleC06ExactMatch, ruleC06IDFormat, ruleC06EmptyRefused},
+		Rules:       []func(*Ctx){ruleC06CheckedBeforeUse, ruleC06ExactMatch, ruleC06IDFormat, ruleC06EmptyRefused, ruleC06IDFlowsUnmodified},
 	})
 }
 
@@ -402,4 +402,113 @@ func ruleC06EmptyRefused(c *Ctx) {
 		}
 	}
 	c.check(seenEdge && !bad, shortName(f)+"/reject-empty", u.pos(f.Pos()), "id == \"\" → (nil, error)", "the empty partition id is not rejected with (nil, error)")
+}
+
+// ruleC06IDFlowsUnmodified: the partition id given to GetSession reaches the session-cache key, the session loader and
+// the partition object unmodified at every hop (a normalised/truncated id would hand out another partition's session).
+func ruleC06IDFlowsUnmodified(c *Ctx) {
+	u := c.U1
+	c.rule("C06.id-flows-unmodified", "the partition id flows unchanged GetSession → sessionCache.Get / newSession → getOrAdd → cache.Get/Set key and loader → newSession → newPartition → partition.id", 10)
+	type hop struct {
+		fn       *ssa.Function
+		name     string
+		param    int
+		match    func(ssa.Instruction) (arg ssa.Value, ok bool)
+		calleeTx string
+		min      int
+	}
+	invokeArg := func(iface, meth string, idx int) func(ssa.Instruction) (ssa.Value, bool) {
+		return func(i ssa.Instruction) (ssa.Value, bool) {
+			cc := callOf(i)
+			if cc != nil && cc.IsInvoke() && cc.Method.Name() == meth && strings.HasSuffix(namedTypeName(cc.Value.Type()), iface) && idx < len(cc.Args) {
+				return cc.Args[idx], true
+			}
+			return nil, false
+		}
+	}
+	staticArg := func(name string, idx int) func(ssa.Instruction) (ssa.Value, bool) {
+		return func(i ssa.Instruction) (ssa.Value, bool) {
+			if g := staticCallee(i); g != nil && g.Name() == name && idx < len(callOf(i).Args) {
+				return callOf(i).Args[idx], true
+			}
+			return nil, false
+		}
+	}
+	fieldCallArg := func(field string, idx int) func(ssa.Instruction) (ssa.Value, bool) {
+		return func(i ssa.Instruction) (ssa.Value, bool) {
+			cc := callOf(i)
+			if cc == nil || cc.IsInvoke() || cc.StaticCallee() != nil {
+				return nil, false
+			}
+			if _, fld, ok := fieldAccess(cc.Value); ok && fld == field && idx < len(cc.Args) {
+				return cc.Args[idx], true
+			}
+			if dynamicCallOfParam(i, field) && idx < len(cc.Args) {
+				return cc.Args[idx], true
+			}
+			return nil, false
+		}
+	}
+	var loaderClosure, factoryClosure *ssa.Function
+	if f := u.Func(pkgApp, "newSessionCacheWithCache"); f != nil && len(f.AnonFuncs) > 0 {
+		loaderClosure = f.AnonFuncs[0]
+	}
+	if f := u.Func(pkgApp, "NewSessionFactory"); f != nil {
+		for _, a := range f.AnonFuncs {
+			if len(a.Params) == 1 && a.Params[0].Type().String() == "string" {
+				factoryClosure = a
+			}
+		}
+	}
+	hops := []hop{
+		{u.Method(pkgApp, "SessionFactory", "GetSession"), "GetSession→sessionCache.Get", 1, invokeArg("sessionCache", "Get", 0), "", 1},
+		{u.Method(pkgApp, "SessionFactory", "GetSession"), "GetSession→newSession", 1, staticArg("newSession", 1), "", 1},
+		{u.Method(pkgApp, "cacheWrapper", "Get"), "cacheWrapper.Get→getOrAdd", 1, staticArg("getOrAdd", 1), "", 1},
+		{u.Method(pkgApp, "cacheWrapper", "getOrAdd"), "getOrAdd→cache.Get", 1, invokeArg("Interface", "Get", 0), "", 1},
+		{u.Method(pkgApp, "cacheWrapper", "getOrAdd"), "getOrAdd→cache.Set", 1, invokeArg("Interface", "Set", 0), "", 1},
+		{u.Method(pkgApp, "cacheWrapper", "getOrAdd"), "getOrAdd→loader", 1, fieldCallArg("loader", 0), "", 1},
+		{loaderClosure, "session loader→loader", 0, fieldCallArg("loader", 0), "", 1},
+		{factoryClosure, "factory loader→newSession", 0, staticArg("newSession", 1), "", 1},
+		{u.Func(pkgApp, "newSession"), "newSession→newPartition", 1, staticArg("newPartition", 1), "", 1},
+		{u.Method(pkgApp, "SessionFactory", "newPartition"), "newPartition→newSuffixedPartition", 1, staticArg("newSuffixedPartition", 0), "", 1},
+		{u.Method(pkgApp, "SessionFactory", "newPartition"), "newPartition→newPartition", 1, staticArg("newPartition", 0), "", 1},
+	}
+	for _, h := range hops {
+		if h.fn == nil {
+			c.unresolved(h.name, "function")
+			continue
+		}
+		c.FuncsAnalysed[shortName(h.fn)] = true
+		n := 0
+		allInstrs(h.fn, func(i ssa.Instruction) {
+			arg, ok := h.match(i)
+			if !ok {
+				return
+			}
+			n++
+			c.CallSites++
+			same := isParamOrCaptured(arg, h.fn, h.param) || (h.fn.Parent() != nil && resolve(arg) == ssa.Value(h.fn.Params[h.param]))
+			c.check(same, h.name, u.ipos(i), "passes the id parameter itself", "the partition id is transformed on its way ("+accessPath(arg)+" instead of the id parameter): two different partition ids can end up sharing a session / key id")
+		})
+		if n < h.min {
+			c.bad(h.name, u.pos(h.fn.Pos()), "hop not found (anchors moved?)")
+		}
+	}
+	// constructors store the id parameter into the partition's id field
+	for _, ctor := range []string{"newPartition", "newSuffixedPartition"} {
+		f := u.Func(pkgApp, ctor)
+		if f == nil {
+			c.unresolved(ctor, "function")
+			continue
+		}
+		ok := false
+		allInstrs(f, func(i ssa.Instruction) {
+			if st, isSt := i.(*ssa.Store); isSt {
+				if _, fld, isF := fieldAccess(st.Addr); isF && fld == "id" && isParamNamed(st.Val, f, 0) {
+					ok = true
+				}
+			}
+		})
+		c.check(ok, ctor+"/id-field", u.pos(f.Pos()), "partition.id = the id parameter", "the partition object does not store the id it was created for unchanged")
+	}
 }
